@@ -49,7 +49,7 @@ TClone == /\ Is("Clone") /\ Adv
           /\ SemEq(Ev.cl2, Ev.val) /\ SemEq(Ev.after2, Ev.cl2)
 TNext == (TEq \/ THash \/ TOrd \/ TSort \/ TClone) /\ UNCHANGED tvars4
 Z == [t |-> "int", n |-> 0]
-TInit == l = 1 /\ u = 1 /\ a = Z /\ b = Z /\ c = Z
+TInit == l = 1 /\ vu = 1 /\ va = Z /\ vb = Z /\ vc = Z
 TSpec == TInit /\ [][TNext]_<<l, tvars4>>
 HighWater == TLCSet(1, IF TLCGet(1) < l THEN l ELSE TLCGet(1))
 Accepted == /\ PrintT(<<"HIGHWATER", TLCGet(1), Len(Trace)>>)
